@@ -78,7 +78,8 @@ def make_cases(t: T, k: int, only=None) -> List[Tuple[sg.Schema, List[Any], str]
         # the field in the MIDDLE of a buffer (word-at-a-time fast paths only engage when enough bytes follow),
         # followers all-zeros / all-ones / alternating so that a spill in either direction shows
         ("Fo", t, [{**(padv if i % 2 else ({1: 0} if k else {})), 2: b, 3: f, 4: (1 << 64) - 1 - f}
-                   for i, b in enumerate(patterns(t)) for f in (0, (1 << 64) - 1, 0xAAAAAAAAAAAAAAAA)],
+                   for i, b in enumerate(patterns(t)[:3] if only else patterns(t))
+                   for f in ((0, (1 << 64) - 1) if only else (0, (1 << 64) - 1, 0xAAAAAAAAAAAAAAAA))],
          [(3, "f1", T("uint", n=64)), (4, "f2", T("uint", n=64))]),
     )
     for name, ft, vals, followers in shapes:
